@@ -12,7 +12,9 @@ Translated (Python ast -> Gallina over `string`, fail closed):
   DEFAULT_INFLIGHT_TIMEOUT_MS, DEFAULT_GRACE_MS (collect), TABLE_DEFAULT_GRACE_MS (Table.garbage_collect)
   MARKERS_FIRST                       whether collect() loads the in-flight protection before it reads the metadata
 
-Pinned (hand-modelled in Model/GC.v): the control skeleton of collect / _load_inflight_protection /
+Pinned (hand-modelled in Model/GC.v): FileManager.read_manifest(_list)_file's Avro attempt catches exactly
+(ValueError, IndexError, StopIteration, OSError) and falls through to a JSON fallback that raises on failure;
+the control skeleton of collect / _load_inflight_protection /
 _gc_prefix / _marker_targets -- order of storage calls, try/except structure with what each handler does
 (raise / assign / return / continue), the comparison operators of the age tests.  A change there makes the
 translator fail closed: the hand-written model has to be re-validated against the new code.
@@ -333,6 +335,31 @@ def check_skeleton(fn: ast.FunctionDef, key: str) -> None:
                           f"  expected: {GOLDEN_SKELETONS[key][0]}\n  got:      {got}")
 
 
+# ----------------------------------------------------------------------------- Avro -> JSON fallback (pinned)
+AVRO_CAUGHT = ["ValueError", "IndexError", "StopIteration", "OSError"]
+
+
+def check_avro_fallback(fm: ast.Module, name: str) -> None:
+    """read_manifest(_list)_file: `exists` guard, then ONE try around the Avro attempt whose handler catches exactly
+    AVRO_CAUGHT and falls through to the JSON fallback (Model/GC.v read_one: OSError-class failures and non-Avro bytes fall
+    back, anything else propagates), then read_file + json.loads inside a try whose handler raises."""
+    fn = find_function(fm, name, cls="FileManager")
+    body = strip_docstring(fn.body)
+    tries = [s for s in body if isinstance(s, ast.Try)]
+    if len(tries) != 2 or not isinstance(body[0], ast.If):
+        raise Unsupported(f"{name}: expected `if not exists: raise`, an Avro try and a JSON try; got {[type(s).__name__ for s in body]}")
+    avro, js = tries
+    if len(avro.handlers) != 1 or not isinstance(avro.handlers[0].type, ast.Tuple):
+        raise Unsupported(f"{name}: the Avro attempt must have one handler with a tuple of exception types")
+    names = [e.id for e in avro.handlers[0].type.elts if isinstance(e, ast.Name)]
+    if names != AVRO_CAUGHT:
+        raise Unsupported(f"{name}: the Avro attempt catches {names}, the model assumes {AVRO_CAUGHT}")
+    if not all(isinstance(s, ast.Pass) or (isinstance(s, ast.Expr) and isinstance(s.value, ast.Constant)) for s in avro.handlers[0].body):
+        raise Unsupported(f"{name}: the Avro handler no longer just falls through to the JSON fallback")
+    if len(js.handlers) != 1 or not any(isinstance(s, ast.Raise) for s in js.handlers[0].body):
+        raise Unsupported(f"{name}: the JSON fallback's handler no longer raises")
+
+
 # ----------------------------------------------------------------------------- generator
 def marker_fallback_term(fn: ast.FunctionDef) -> str:
     """The statements before the `try:` of _marker_targets define `fallback` (a str or a set of str)."""
@@ -451,6 +478,9 @@ def gen_norm(src: str) -> str:
     reg_path, reg_payload = register_terms(reg, {"_INFLIGHT_PATH": "TX_INFLIGHT_PATH"})
 
     # hand-modelled control structure: pinned
+    fm = parse_module(src, "file_manager.py")
+    check_avro_fallback(fm, "read_manifest_list_file")
+    check_avro_fallback(fm, "read_manifest_file")
     check_skeleton(collect, "collect")
     mfirst = markers_first(collect)
     check_skeleton(find_function(gc, "_load_inflight_protection", cls="GarbageCollector"), "_load_inflight_protection")
